@@ -1,6 +1,7 @@
 (* driver.ml -- C09: line-oriented front end of the extracted models Delay / DelayParse.
    Commands (one per line, one answer line each):
-     parse <hex>                          delay string codec:  impl=<ms>|ub spec=<ms>|none value=<hex> unit=<hex>
+     parse <dv> <hex>                     delay string codec (dv = two bits: dpv_wide dpv_init):
+                                          impl=<ms>|ub|uninit spec=<ms>|none value=<hex> unit=<hex>
      sim <v> <prog> <sched>               run one schedule:    class=.. steps=.. trace=..
      simc <v> <prog> <sched>              the same, then completed canonically to a terminal state
      enum <v> <prog> <switches> <cap>     all realisable complete schedules with at most <switches>
@@ -59,6 +60,7 @@ let class_str v s =
 
 (* one token per scheduled step: what the thread was about to do and how it ended *)
 let nprog0 = ref 0
+let skipped = ref 0
 let step_token v (s:dstate) (t:tid) : string =
   let res = dstep v pick_min s t in
   let opidx () = !nprog0 - List.length s.prog in
@@ -127,8 +129,14 @@ let enum_from v prog prefix maxsw cap =
       else finish s sched toks
     end else if s.ipc = IAllLocked && enabled v s Interp then
       step s Interp last sw sched toks depth
-    else if timer_due s then
-      step s Timer last sw sched toks depth
+    else if timer_due s then begin
+      (* two timers with the same (logical) least due time: which of them libevent runs first is decided by
+         the sub-tick difference of their real due times, which the replay cannot control: not enumerated *)
+      let due = List.filter (fun (_, d) -> int_of_n d <= int_of_n s.now) (armed_list s.pending) in
+      let m = List.fold_left (fun a (_, d) -> min a (int_of_n d)) max_int due in
+      if List.length (List.filter (fun (_, d) -> int_of_n d = m) due) > 1 then incr skipped
+      else step s Timer last sw sched toks depth
+    end
     else begin
       let cands = List.filter (fun t -> enabled v s t) [Interp; Timer] in
       let cands = if tick_useful s then cands @ [Clock] else cands in
@@ -161,11 +169,12 @@ let enum v prog maxsw cap = enum_from v prog "" maxsw cap
 
 let handle (line:string) : string =
   match split line with
-  | ["parse"; h] ->
+  | ["parse"; dv; h] ->
       let s = bytes_of_hex h in
       let na = num_attr s in
+      let dv = { dpv_wide = (dv.[0] = '1'); dpv_init = (dv.[1] = '1') } in
       Printf.sprintf "impl=%s spec=%s value=%s unit=%s"
-        (match delay_parse s with DpMs m -> si m | DpUB -> "ub" | DpUninit -> "uninit")
+        (match delay_parse dv s with DpMs m -> si m | DpUB -> "ub" | DpUninit -> "uninit")
         (match delay_spec s with Some m -> si m | None -> "none")
         (hex_of_bytes na.na_value) (hex_of_bytes na.na_unit)
   | ["sim"; v; p; sch] ->
